@@ -24,6 +24,12 @@ REGIONS = {}
 def gen_case(rng):
     g = F.Gen(rng, VARS, ALLOW, max_bound=rng.choice([2, 3, 4]))
     f = g.formula(rng.choice([1, 2, 3, 4]))
+    direct_until = rng.random() < 0.12
+    if direct_until:
+        a_ = rng.randint(0, 3)
+        f = ("tb2", "until", a_, a_ + rng.randint(0, 3), g.formula(rng.choice([0, 1])), g.formula(rng.choice([0, 1])))
+        if rng.random() < 0.4:
+            f = ("b", rng.choice(["and", "or"]), f, g.formula(1))
     n1 = rng.randint(1, 10)
     vs = F.variables(f) or ["a"]
     w1 = F.gen_trace(rng, vs, n1)
@@ -32,14 +38,31 @@ def gen_case(rng):
         k = rng.randint(1, 6)
         tail = F.gen_trace(rng, vs, k, vals=(-9.0, -3.0, 0.0, 3.0, 9.0, 100.0, -100.0))
         exts.append({v: w1[v] + tail[v] for v in vs})
-    return {"stream": "ext-d", "f": f, "n": n1, "data": w1, "exts": exts, "decl": vs}
+    case = {"stream": "ext-d", "f": f, "n": n1, "data": w1, "exts": exts, "decl": vs}
+    if (direct_until or rng.random() < 0.25) and any(x[0] in ("tb1", "tb2") for x in F.subformulas(f)):
+        # the same specification with its bounds spelled with explicit units (on either / both ends, bounded until also as the
+        # sugar `unless`) under a random default unit and sampling period: the horizon is a duration, not a numeral
+        from . import c08
+        unit, period, punit = rng.choice(c08.configs(rng))
+        case["render"] = [rng.randint(0, 10 ** 6), unit, str(period), punit, rng.random() < (0.8 if direct_until else 0.5)]
+        case["stream"] = "ext-d/units"
+    return case
 
 
 def check_case(ctx, case, hor, m_rho1):
     f, n1, w1 = case["f"], case["n"], case["data"]
     text = "out = " + F.to_text(f)
-    o1 = impl.eval_offline_discrete(text, case["decl"], w1, n1)
-    rep = {"spec": text, "formula": F.to_proto(f), "n": n1, "data": w1, "exts": case["exts"], "horizon": hor, "impl_w1": o1}
+    kw = {}
+    if case.get("render"):
+        import random
+        from fractions import Fraction
+        from . import c08
+        seed, unit, period, punit, unl = case["render"]
+        period = Fraction(period)
+        text = c08.render(random.Random(seed), f, unit, period * c08.NS[punit], [], unl)
+        kw = dict(unit=unit, sampling=(int(period) if period.denominator == 1 else float(period), punit, 0.1), limit=8.0, timeout_is_outcome=True)
+    o1 = impl.eval_offline_discrete(text, case["decl"], w1, n1, **kw)
+    rep = {"render": case.get("render"), "spec": text, "formula": F.to_proto(f), "n": n1, "data": w1, "exts": case["exts"], "horizon": hor, "impl_w1": o1}
     if o1[0] != "ok":
         return Violation("evaluate() raised %r on %s" % (o1[1:], text), rep, stream=case["stream"])
     v1 = [p[1] for p in o1[1]]
@@ -48,7 +71,7 @@ def check_case(ctx, case, hor, m_rho1):
         ctx.nontrivial.add(disc.data_key(text, w1))
     for w2 in case["exts"]:
         n2 = len(next(iter(w2.values())))
-        o2 = impl.eval_offline_discrete(text, case["decl"], w2, n2)
+        o2 = impl.eval_offline_discrete(text, case["decl"], w2, n2, **kw)
         ctx.evaluations += 1
         rep2 = dict(rep, w2=w2, impl_w2=o2)
         if o2[0] != "ok":
@@ -58,7 +81,7 @@ def check_case(ctx, case, hor, m_rho1):
             if not common.num_eq(v1[t], v2[t]):
                 return Violation("settled value at t=%d (hor=%d, |w1|=%d) changes from %r to %r when the trace is extended: %s"
                                  % (t, hor, n1, v1[t], v2[t], text), rep2, stream=case["stream"])
-    if m_rho1[0] == "ok":
+    if m_rho1[0] == "ok" and not (case.get("render") and case["render"][4]):      # (`unless` is another formula than `until`)
         for t in settled:
             if not common.num_eq(v1[t], m_rho1[1][t]):
                 return Violation("settled value at t=%d is %r, rho is %r: %s" % (t, v1[t], m_rho1[1][t], text), rep,
@@ -104,7 +127,8 @@ def explore(ctx, rng, count):
 def replay(ctx, obj):
     f = F.from_proto(obj["formula"])
     c = {"stream": "replay", "f": f, "n": obj["n"], "data": {k: [float(x) for x in v] for k, v in obj["data"].items()},
-         "exts": [{k: [float(x) for x in v] for k, v in e.items()} for e in obj["exts"]], "decl": F.variables(f) or ["a"]}
+         "exts": [{k: [float(x) for x in v] for k, v in e.items()} for e in obj["exts"]], "decl": F.variables(f) or ["a"],
+         "render": obj.get("render")}
     (hor, m_rho), = model([c])
     v = check_case(Ctx(ctx.id, ctx.tier, ctx.seed), c, hor, m_rho)
     return (v is None), (v.what if v else "settled values are stable on the replayed case")
